@@ -14,6 +14,9 @@ mod engine;
 mod reader;
 mod printer;
 mod values;
+mod grammar;
+mod lexical;
+mod parsetotal;
 
 use std::process::exit;
 
@@ -38,6 +41,9 @@ fn main() {
                 "reader" => reader::replay(&cases),
                 "printer" => printer::replay(&cases),
                 "values" => values::replay(&cases),
+                "grammar" => grammar::replay(&cases),
+                "lexical" => lexical::replay(&cases),
+                "parsetotal" => parsetotal::replay(&cases),
                 m => { eprintln!("unknown module {}", m); exit(2) }
             };
             common::write_json(&args[4], &report);
@@ -48,6 +54,7 @@ fn main() {
             let events = match args[2].as_str() {
                 "follow" => follow::trace(seed, n),
                 "values" => values::trace(seed, n),
+                "parse" => parsetotal::trace(seed, n),
                 m => { eprintln!("unknown module {}", m); exit(2) }
             };
             common::write_ndjson(&args[5], &events);
